@@ -228,6 +228,13 @@ pub fn finish(
     const MAX_HISTORY_SEARCHES: usize = 8;
     let mut history_searches = 0usize;
     let mut unconfirmed_candidates = 0usize;
+    if let Ok(dir) = std::env::var("OPWSIM_DUMP_CANDIDATES") {
+        // debugging aid: every candidate as observed, before confirmation
+        let _ = std::fs::create_dir_all(&dir);
+        for (i, (_, v)) in by_sig.iter().enumerate() {
+            let _ = std::fs::write(format!("{dir}/candidate-{i}.json"), serde_json::to_string(&json!({"clause": v.clause, "origin": v.origin, "detail": v.detail, "case": v.case})).unwrap_or_default());
+        }
+    }
     for (sig, v) in &by_sig {
         if new_violations >= MAX_REPORTED {
             unconfirmed_candidates += 1;
